@@ -40,9 +40,9 @@ PROPS = {
         assumptions=COMMON_ASSUME,
         explanation="every operation's postcondition is an equation den(result) == <named Boolean function>(den(operands)) over closed spec functions bf_*; restrict is the cofactor bf_restrict; ext(old.nodes, nodes) (append-only) in every postcondition plus lemma_ext_den gives: no operation changes the function of a previously issued handle"),
     "C11": dict(
-        units=dict(quick=BDD_QUICK, thorough=[("bdd", c) for c in ALL12]), probes=dict(quick=BDD_PROBES, thorough=BDD_PROBES), depends=["C06", "C07"],
+        units=dict(quick=BDD_QUICK, thorough=[("bdd", c) for c in ALL12]), probes=dict(quick=BDD_PROBES, thorough=BDD_PROBES), depends=["C06", "C07", "C13"],
         assumptions=COMMON_ASSUME + ["no selected function iterates over a HashMap/HashSet (iteration order is the only nondeterminism in safe single-threaded Rust besides the RNG)"],
-        explanation="memo tables (ite/restrict/count) are part of wf(): an entry must be correct to be in a table, every insert site carries the assertion that the inserted entry is; every postcondition determines den(result) as a function of den(operands) only, and ext() keeps issued handles stable; the &self count queries are proved to leave every other field unchanged (same_but_counts)",
+        explanation="owned: every memo insert is keyed by exactly the call's own arguments, ext() keeps issued handles stable, the &self count queries leave every other field unchanged (same_but_counts). Depended on (C06/C07/C13, a failure there makes this check UNDECIDED, not VIOLATION): memo tables (ite/restrict/count) are part of wf(): an entry must be correct to be in a table, every insert site carries the assertion that the inserted entry is; every postcondition determines den(result) as a function of den(operands) only, and ext() keeps issued handles stable; the &self count queries are proved to leave every other field unchanged (same_but_counts)",
         not_decided=["order of models produced by the nogood search across histories (determinism argument only)", "ADF-level answers: inherited from C01-C03 contracts when those units are present"]),
     "C12": dict(
         units=dict(quick=[("bdd", "default"), ("bdd", "c_n"), ("bdd", "c_pm")], thorough=[("bdd", "default")] + [("bdd", c) for c in ALL12]), depends=[], differential=True,
